@@ -25,6 +25,11 @@ const trShort = "plumbing/transport"
 
 func runC39(c *Ctx) {
 	p := c.P
+	// stored-means-stored: the pack parser writes objects through Storer.RawObjectWriter, whose Close is where the object
+	// is kept; the error of that Close (deferred or not) must reach Parse's caller, or references get updated over
+	// objects that were never stored
+	nDef := DeferredErrorsReachResult(c, "deferred-error-reaches-result", "plumbing/format/packfile", trShort)
+	c.Check(nDef >= 1, "deferred-error-reaches-result", "packfile+transport:writers", 0, itoa(nDef)+" functions that close a write handle in a deferred call examined")
 	pk := p.Pkg(trShort)
 	if pk == nil {
 		c.Unresolved("old-value-checked", "package "+trShort, 0, "package not loaded")
